@@ -780,10 +780,12 @@ static void DecodeNorm(Word Index) {
             CodeLen = AdrResult.AdrCnt + 1;
             /* JMP (xxFF) fetches the vector's high byte from the same page
                on the NMOS parts; the 65C02 family (65SC02, R65C02, W65C02S)
-               increments the page correctly: */
+               and the CMOS cores derived from it (65CE02, HuC6280)
+               increment the page correctly: */
 
             if ((AdrResult.ErgMode == ModInd16) && (MomCPU != CPU65SC02)
                 && (MomCPU != CPU65C02) && (MomCPU != CPUW65C02S)
+                && (MomCPU != CPU65CE02) && (MomCPU != CPUHUC6280)
                 && (BAsmCode[1] == 0xff)) {
                 WrError(ErrNum_NotOnThisAddress);
                 CodeLen = 0;
